@@ -94,8 +94,10 @@ Plan gen_C19(sim::Rng &r, Plan p, bool thorough)
                 p.main_ops.push_back(mkop19("install"));
             else if (x < 7)
                 p.main_ops.push_back(mkop19("restore"));
-            else
+            else if (x < 9)
                 p.main_ops.push_back(mkop19("foreign", (int)r.below(3)));
+            else
+                p.main_ops.push_back(mkop19("scratch")); // another Logger object, never installed, created and destroyed
         }
         p.cfg = cfg;
         p.sched_seed = r.next();
@@ -271,6 +273,10 @@ const QtMessageHandler kForeign[] = { foreign0, foreign1, foreign2 };
             Logger::restorePreviousMessageHandler();
         else if (op.kind == "foreign")
             qInstallMessageHandler(kForeign[op.a % 3]);
+        else if (op.kind == "scratch") {
+            Logger *other = new Logger;
+            delete other;
+        }
         probe((int)i + 1);
     }
     sim::end();
@@ -881,6 +887,8 @@ Verdict judge_handlers(const Plan &plan, const sim::Shm *shm, Verdict v)
                         cur = L;
                     }
                     next.insert({ cur, saved });
+                } else if (op.kind == "scratch") {
+                    next.insert(st); // an unrelated Logger object comes and goes: nothing changes
                 } else if (op.kind == "foreign") {
                     next.insert({ op.a % 3, saved });
                 } else if (op.kind == "restore") {
